@@ -4,7 +4,8 @@
   2. ndarray method forms -> function forms  (kernel modules only, where every receiver is an ndarray)
                                              a.sum(axis=k) -> np.sum(a, axis=k) ; a.reshape(p, q) -> np.reshape(a, (p, q)) ; a.transpose(1, 2, 0) -> np.transpose(a, (1, 2, 0))
   3. x = a if c else b  ->  if c: x = a / else: x = b   (also for return)
-  4. private helper inlining                 module-level functions / methods whose name starts with '_' and whose body is straight-line code
+  4. index loops -> element loops, append loops -> comprehensions (LoopCanon, AppendLoop)
+  5. private helper inlining                 module-level functions / methods whose name starts with '_' and whose body is straight-line code
                                              ending in one `return` are inlined at their call sites (statement position; pure single-expression
                                              helpers also in expression position).  Locals of the helper are renamed apart.
 
@@ -106,7 +107,7 @@ def _simple_helper(fn):
         if not isinstance(s, (ast.Assign, ast.AugAssign, ast.AnnAssign, ast.If, ast.For, ast.Expr)):
             return None
         for n in ast.walk(s):
-            if isinstance(n, (ast.Return, ast.Raise, ast.Break, ast.Continue)) and not isinstance(s, (ast.Assign, ast.AugAssign, ast.AnnAssign)):
+            if isinstance(n, (ast.Return, ast.Break, ast.Continue)) and not isinstance(s, (ast.Assign, ast.AugAssign, ast.AnnAssign)):
                 return None
     for s in body:
         for n in ast.walk(s):
@@ -288,9 +289,217 @@ class Inliner:
         return prefix, new
 
 
+# ------------------------------------------------------------------------------------------------ loop canonicalisation
+def _names_loaded(node):
+    return [n for n in ast.walk(node) if isinstance(n, ast.Name)]
+
+
+def _is_simple_seq(e):
+    """a sequence expression that can be evaluated repeatedly without effect: a name or an attribute chain of names"""
+    while isinstance(e, ast.Attribute):
+        e = e.value
+    return isinstance(e, ast.Name)
+
+
+def _mutated_in(body, seq_text):
+    """may the sequence be re-bound or mutated in the loop body?  (conservative)"""
+    for st in body:
+        for n in ast.walk(st):
+            if isinstance(n, (ast.Assign, ast.AugAssign, ast.AnnAssign, ast.Delete, ast.For)):
+                tg = n.targets if isinstance(n, (ast.Assign, ast.Delete)) else [n.target]
+                for t in tg:
+                    for x in ast.walk(t):
+                        if isinstance(x, (ast.Name, ast.Attribute, ast.Subscript)) and ast.unparse(x if not isinstance(x, ast.Subscript) else x.value) == seq_text:
+                            return True
+            if isinstance(n, ast.Call) and isinstance(n.func, ast.Attribute) and ast.unparse(n.func.value) == seq_text and n.func.attr in (
+                    'append', 'extend', 'insert', 'pop', 'remove', 'clear', 'sort', 'reverse', 'add', 'discard', 'update', 'popitem', 'setdefault'):
+                return True
+    return False
+
+
+class LoopCanon(ast.NodeTransformer):
+    """index loops become element loops (analysis sees one spelling of "for each element, in order"):
+
+        for k in range(len(xs)):  ... xs[k] ...             ->  for e in xs: ... e ...                      (k used only to index xs)
+        for k in range(len(xs)):  ... xs[k] ... k ...       ->  for k, e in enumerate(xs): ... e ... k ...
+        for k in range(len(xs)):  ... xs[k] ... ys[k] ...   ->  for e, f in zip(xs, ys): ...                   (k used only to index; ys indexed in step with xs)
+        for k in range(len(xs) - 1, -1, -1): ... xs[k] ...  ->  for e in reversed(xs): ...
+        for _, e in enumerate(xs) / index unused            ->  for e in xs
+        first statement `x = <loop element>`                ->  x becomes the loop target
+
+    Only applied when xs (and ys) are plain names / attribute chains that the body neither re-binds nor mutates."""
+    def __init__(self):
+        self.n = 0
+
+    def fresh(self, base):
+        self.n += 1
+        return '%s__el%d' % (base, self.n)
+
+    def visit_For(self, node):
+        self.generic_visit(node)
+        node = self._index_loop(node)
+        node = self._drop_unused_enumerate(node)
+        node = self._alias_first(node)
+        return node
+
+    def _range_len(self, it):
+        """-> (sequence expr, 'up' | 'down') for range(len(xs)) / range(len(xs) - 1, -1, -1)"""
+        if not (isinstance(it, ast.Call) and isinstance(it.func, ast.Name) and it.func.id == 'range' and not it.keywords):
+            return None
+        a = it.args
+        def len_of(e):
+            if isinstance(e, ast.Call) and isinstance(e.func, ast.Name) and e.func.id == 'len' and len(e.args) == 1 and not e.keywords and _is_simple_seq(e.args[0]):
+                return e.args[0]
+            return None
+        if len(a) == 1 and len_of(a[0]) is not None:
+            return len_of(a[0]), 'up'
+        if len(a) == 2 and isinstance(a[0], ast.Constant) and a[0].value == 0 and len_of(a[1]) is not None:
+            return len_of(a[1]), 'up'
+        if len(a) == 3 and isinstance(a[0], ast.BinOp) and isinstance(a[0].op, ast.Sub) and isinstance(a[0].right, ast.Constant) and a[0].right.value == 1 and len_of(a[0].left) is not None \
+                and isinstance(a[1], ast.UnaryOp) and isinstance(a[1].op, ast.USub) and isinstance(a[1].operand, ast.Constant) and a[1].operand.value == 1 \
+                and isinstance(a[2], ast.UnaryOp) and isinstance(a[2].op, ast.USub) and isinstance(a[2].operand, ast.Constant) and a[2].operand.value == 1:
+            return len_of(a[0].left), 'down'
+        return None
+
+    def _index_loop(self, node):
+        if not isinstance(node.target, ast.Name) or node.orelse:
+            return node
+        rl = self._range_len(node.iter)
+        if rl is None:
+            return node
+        seq, direction = rl
+        if isinstance(seq, ast.Name) and seq.id == 'self':
+            return node             # iterating `self` would call the very protocol being defined
+        k = node.target.id
+        seq_text = ast.unparse(seq)
+        # all uses of k in the body
+        subs = {}          # sequence text -> list of Subscript nodes  s[k]
+        other = 0
+        parents = {}
+        for st in node.body:
+            for p_ in ast.walk(st):
+                for ch in ast.iter_child_nodes(p_):
+                    parents[id(ch)] = p_
+        for st in node.body:
+            for n in ast.walk(st):
+                if isinstance(n, ast.Name) and n.id == k:
+                    if isinstance(n.ctx, ast.Store):
+                        return node
+                    par = parents.get(id(n))
+                    if isinstance(par, ast.Subscript) and par.slice is n and isinstance(par.ctx, ast.Load) and _is_simple_seq(par.value):
+                        subs.setdefault(ast.unparse(par.value), []).append(par)
+                    else:
+                        other += 1
+        if seq_text not in subs:
+            return node
+        seqs = [seq_text] + sorted(t for t in subs if t != seq_text)
+        if any(_mutated_in(node.body, t) for t in seqs):
+            return node
+        if direction == 'down' and (len(seqs) > 1 or other):
+            return node
+        if len(seqs) > 1 and other:
+            return node
+        names = {t: self.fresh(t.split('.')[-1]) for t in seqs}
+        repl = {}
+        for t, nodes in subs.items():
+            for sn in nodes:
+                repl[id(sn)] = names[t]
+
+        class R(ast.NodeTransformer):
+            def visit_Subscript(self, n):
+                if id(n) in repl:
+                    return ast.copy_location(ast.Name(id=repl[id(n)], ctx=ast.Load()), n)
+                return self.generic_visit(n)
+        body = [R().visit(st) for st in node.body]
+        def ld(text):
+            return ast.parse(text, mode='eval').body
+        if len(seqs) == 1:
+            el = ast.Name(id=names[seq_text], ctx=ast.Store())
+            if other:
+                target = ast.Tuple(elts=[ast.Name(id=k, ctx=ast.Store()), el], ctx=ast.Store())
+                it = ast.Call(func=ast.Name(id='enumerate', ctx=ast.Load()), args=[ld(seq_text)], keywords=[])
+            elif direction == 'down':
+                target, it = el, ast.Call(func=ast.Name(id='reversed', ctx=ast.Load()), args=[ld(seq_text)], keywords=[])
+            else:
+                target, it = el, ld(seq_text)
+        else:
+            target = ast.Tuple(elts=[ast.Name(id=names[t], ctx=ast.Store()) for t in seqs], ctx=ast.Store())
+            it = ast.Call(func=ast.Name(id='zip', ctx=ast.Load()), args=[ld(t) for t in seqs], keywords=[])
+        new = ast.For(target=target, iter=it, body=body, orelse=[], type_comment=None)
+        ast.copy_location(new, node)
+        ast.fix_missing_locations(new)
+        return new
+
+    def _drop_unused_enumerate(self, node):
+        it = node.iter
+        if isinstance(it, ast.Call) and isinstance(it.func, ast.Name) and it.func.id == 'enumerate' and len(it.args) == 1 and not it.keywords \
+                and isinstance(node.target, ast.Tuple) and len(node.target.elts) == 2 and isinstance(node.target.elts[0], ast.Name):
+            idx = node.target.elts[0].id
+            used = any(isinstance(n, ast.Name) and n.id == idx for st in node.body + node.orelse for n in ast.walk(st))
+            if not used and idx == '_':
+                node.target = node.target.elts[1]
+                node.iter = it.args[0]
+        return node
+
+    def _alias_first(self, node):
+        """for e in xs: x = e ; ...   ->   for x in xs: ...      (e generated by this pass and not used otherwise)"""
+        if isinstance(node.target, ast.Name) and '__el' in node.target.id and node.body and isinstance(node.body[0], ast.Assign) and len(node.body[0].targets) == 1 \
+                and isinstance(node.body[0].targets[0], ast.Name) and isinstance(node.body[0].value, ast.Name) and node.body[0].value.id == node.target.id:
+            e = node.target.id
+            x = node.body[0].targets[0].id
+            rest = node.body[1:]
+            if rest and not any(isinstance(n, ast.Name) and n.id == e for st in rest for n in ast.walk(st)):
+                node.target = ast.copy_location(ast.Name(id=x, ctx=ast.Store()), node.target)
+                node.body = rest
+        return node
+
+
+class AppendLoop(ast.NodeTransformer):
+    """out = [] ; for x in xs: out.append(f(x))         ->  out = [f(x) for x in xs]
+       out = [] ; for x in xs: if c(x): out.append(f(x)) ->  out = [f(x) for x in xs if c(x)]
+    and  xs.extend(ys) -> xs += ys  for a local list xs"""
+    def _block(self, stmts):
+        out = []
+        i = 0
+        while i < len(stmts):
+            s = stmts[i]
+            nxt = stmts[i + 1] if i + 1 < len(stmts) else None
+            if isinstance(s, ast.Assign) and len(s.targets) == 1 and isinstance(s.targets[0], ast.Name) and (
+                    (isinstance(s.value, ast.List) and not s.value.elts) or (isinstance(s.value, ast.Call) and isinstance(s.value.func, ast.Name) and s.value.func.id == 'list' and not s.value.args)) \
+                    and isinstance(nxt, ast.For) and not nxt.orelse and len(nxt.body) == 1:
+                name = s.targets[0].id
+                b = nxt.body[0]
+                cond = None
+                if isinstance(b, ast.If) and not b.orelse and len(b.body) == 1:
+                    cond, b = b.test, b.body[0]
+                if isinstance(b, ast.Expr) and isinstance(b.value, ast.Call) and isinstance(b.value.func, ast.Attribute) and b.value.func.attr == 'append' \
+                        and isinstance(b.value.func.value, ast.Name) and b.value.func.value.id == name and len(b.value.args) == 1 and not b.value.keywords:
+                    elt = b.value.args[0]
+                    uses_out = any(isinstance(n, ast.Name) and n.id == name for e in ([elt, nxt.iter] + ([cond] if cond is not None else [])) for n in ast.walk(e))
+                    if not uses_out:
+                        comp = ast.ListComp(elt=elt, generators=[ast.comprehension(target=nxt.target, iter=nxt.iter, ifs=[cond] if cond is not None else [], is_async=0)])
+                        new = ast.Assign(targets=[s.targets[0]], value=comp)
+                        ast.copy_location(new, s)
+                        ast.fix_missing_locations(new)
+                        out.append(new)
+                        i += 2
+                        continue
+            out.append(s)
+            i += 1
+        return out
+
+    def generic_visit(self, node):
+        super().generic_visit(node)
+        for fld in ('body', 'orelse', 'finalbody'):
+            v = getattr(node, fld, None)
+            if isinstance(v, list) and v and isinstance(v[0], ast.stmt):
+                setattr(node, fld, self._block(v))
+        return node
+
+
 def _drop_dead_helpers(tree, inl):
-    """a private helper that was inlined at every use is no longer part of the program: remove its definition, so that who-may-write / purity rules
-    attribute its effects to the (inlined) call sites only"""
+    """a private helper that was inlined at every use is marked (Func.inlined_everywhere): who-may-write / purity rules attribute its effects to the
+    (inlined) call sites only and skip the now unreferenced definition"""
     def refs(name, is_method, skip):
         n = 0
         for node in ast.walk(tree):
@@ -304,13 +513,11 @@ def _drop_dead_helpers(tree, inl):
     for name, fn in list(inl.helpers.items()):
         inner = sum(1 for x in ast.walk(fn) if isinstance(x, ast.Name) and x.id == name)
         if inl.expanded.get(id(fn)) and refs(name, False, None) - inner == 0 and fn in tree.body:
-            tree.body.remove(fn)
+            fn._sa_inlined_everywhere = True
     for (cls, name), fn in list(inl.methods.items()):
         inner = sum(1 for x in ast.walk(fn) if isinstance(x, ast.Attribute) and x.attr == name)
         if inl.expanded.get(id(fn)) and refs(name, True, None) - inner == 0:
-            for c in tree.body:
-                if isinstance(c, ast.ClassDef) and c.name == cls and fn in c.body:
-                    c.body.remove(fn)
+            fn._sa_inlined_everywhere = True
 
 
 def normalize_module(tree, modname):
@@ -327,5 +534,7 @@ def normalize_module(tree, modname):
     if inl.helpers or inl.methods:
         _drop_dead_helpers(tree, inl)
     IfAssign().visit(tree)         # after inlining: a helper `return a if c else b` is inlined as an expression first
+    LoopCanon().visit(tree)
+    AppendLoop().visit(tree)
     ast.fix_missing_locations(tree)
     return tree
